@@ -1,5 +1,7 @@
 import BbRe.Model.Replay41
 import BbRe.Lemmas.Replay41
+import BbRe.Model.Replay40
+import BbRe.Lemmas.Replay40
 /-!
 # C19 — NFSv4: retransmitted requests execute once and get the same reply
 
@@ -17,6 +19,7 @@ Sequence ids are `uint32`; "at most once" is therefore stated for windows of
 fewer than `M = 2^32` executions on one slot.
 -/
 namespace BbRe.Properties.C19
+section V41
 open BbRe.Replay41 BbRe.Lemmas.Replay41
 
 /-! ## NFSv4.1 -/
@@ -456,4 +459,288 @@ example :
 example : WF ⟨0, 0, 1, [22, 38], false, 7⟩ ⟨0, [22, 38], 0⟩ := by unfold WF; decide
 example : WF ⟨0, 0, 1, [22, 15, 38], false, 7⟩ ⟨20, [22, 15], 0⟩ := by unfold WF; decide
 
+end V41
+
+/-! ## NFSv4.0 -/
+section V40
+open BbRe.Replay40 BbRe.Lemmas.Replay40
+
+/-- The eight status codes of `transactionShouldComplete` (RFC 7530 9.1.7):
+STALE_CLIENTID, STALE_STATEID, BAD_STATEID, BAD_SEQID, BADXDR, RESOURCE,
+NOFILEHANDLE, MOVED.  The table is compared with the Go source on every run by
+the harness (`fact check: transactionShouldComplete`). -/
+theorem should_complete_table_40 (st : Nat) :
+    shouldComplete st = false ↔
+      st = 10022 ∨ st = 10023 ∨ st = 10025 ∨ st = 10026 ∨ st = 10036 ∨ st = 10018 ∨ st = 10020 ∨ st = 10019 := by
+  simp only [shouldComplete, Bool.and_eq_false_iff, bne_eq_false_iff_eq, or_assoc]
+
+/-- **seq_advance_rule** (4.0): when the transaction of an open-owner completes,
+the owner's cached seqid becomes the transaction's seqid and its response is
+cached iff `transactionShouldComplete` of the response status; otherwise the
+seqid is unchanged and nothing is cached (the previous response was dropped
+when the transaction started). -/
+theorem seq_advance_rule_40 {s : State} (h : Reachable s) (o : Nat) (x : Fin) (call : Nat) (r : Req)
+    (hb : (s.oo o).busy = some (call, r)) :
+    (shouldComplete x.resp.status = true →
+      ((finish s o x).1.oo o).lastSeq = r.seq ∧ ((finish s o x).1.oo o).lastResp = some x.resp) ∧
+    (shouldComplete x.resp.status = false →
+      ((finish s o x).1.oo o).lastSeq = (s.oo o).lastSeq ∧ ((finish s o x).1.oo o).lastResp = none) ∧
+    ((finish s o x).1.oo o).busy = none ∧ (finish s o x).2.1 = some (call, x.resp) := by
+  have hinv := inv_reachable h
+  rw [finish_oo_same s o x call r hb]
+  refine ⟨fun ha => by simp [ha], fun ha => ?_, rfl, (finish_waiting s o x call r hb).2.2⟩
+  simp [ha, (hinv.busy o _ hb).1]
+
+/-- Same rule for lock-owners (`lockOwnerTransaction.complete`). -/
+theorem lock_seq_advance_rule_40 (s : State) (r : LReq) (x : Resp) (lk f : Nat)
+    (hl : s.lockOther r.other = some (lk, f)) (hex : (lockTx s r x).2.2 = true) :
+    (shouldComplete x.status = true →
+      ((lockTx s r x).1.lo lk).lastSeq = r.seq ∧ ((lockTx s r x).1.lo lk).lastResp = some x) ∧
+    (shouldComplete x.status = false →
+      ((lockTx s r x).1.lo lk).lastSeq = (s.lo lk).lastSeq ∧ ((lockTx s r x).1.lo lk).lastResp = none) := by
+  unfold lockTx at hex ⊢
+  rw [hl] at hex ⊢
+  dsimp only at hex ⊢
+  split at hex
+  · simp at hex
+  · split at hex
+    · simp at hex
+    · rename_i h1 h2
+      simp only [h1, h2, if_false, Bool.false_eq_true]
+      constructor
+      · intro ha; simp [ha]
+      · intro ha; simp [ha]
+
+/-- Executor well-formedness for 4.0: a response has the type of its request,
+and an OK response of OPEN_CONFIRM / OPEN_DOWNGRADE / CLOSE carries the
+successor of the presented state ID (`txOpenConfirm`, `txOpenDowngrade`,
+`txClose` bump `stateID.seqID` of the file they resolved). -/
+def WF40 (r : Req) (resp : Resp) : Prop :=
+  resp.kind = r.kind ∧
+  (r.kind ≠ .open_ → r.kind ≠ .lock → resp.status = 0 → isNext resp.sid r.other r.argSeq = true)
+
+/-- **at_most_once / same_reply** (4.0): while `(r0, x0)` is the owner's last
+completed-and-advanced transaction (ghost `lastDone`, set by `finish` iff the
+status advances, cleared when the next transaction starts), EVERY request that
+resolves to this owner with `r0`'s seqid is answered without starting a
+transaction and without any state change; an identical retransmission gets the
+cached response `x0`. -/
+theorem same_reply_40 {s : State} (h : Reachable s) (c : Nat) (r r0 : Req) (x0 : Resp) (o : Nat)
+    (hres : resolve s r = some o) (hdone : (s.oo o).lastDone = some (r0, x0)) (hseq : r.seq = r0.seq) :
+    arrive s c r = (s, .reply (replayReply r x0)) ∧
+    (r.kind = r0.kind → r.other = r0.other → r.argSeq = r0.argSeq → WF40 r0 x0 → replayReply r x0 = .cached x0) := by
+  have hinv := inv_reachable h
+  obtain ⟨h1, h2⟩ := hinv.done o r0 x0 hdone
+  have hb : (s.oo o).busy = none := by
+    cases hb : (s.oo o).busy with
+    | none => rfl
+    | some b => rw [(hinv.busy o b hb).1] at h1; cases h1
+  refine ⟨arrive_eq_replay s c r o x0 hres hb h1 (by rw [h2, hseq]), fun hk ho ha hwf => ?_⟩
+  obtain ⟨w1, w2⟩ := hwf
+  unfold replayReply
+  rw [if_neg (by rw [w1, hk]; exact fun h => h rfl)]
+  cases hkk : r.kind <;> simp only []
+  all_goals
+    by_cases hst : x0.status = 0
+    · have := w2 (by rw [← hk, hkk]; decide) (by rw [← hk, hkk]; decide) hst
+      rw [ho, ha, this]; simp
+    · simp [hst]
+
+/-- **false_retry** (4.0): whenever `arrive` answers with a cached response, that
+response has the type of the request, and for OPEN_CONFIRM / OPEN_DOWNGRADE /
+CLOSE an OK response is only returned if its state ID is the successor of the
+presented one.  A request that reuses the last seqid with another operation
+type (or another state ID) therefore gets NFS4ERR_BAD_SEQID. -/
+theorem false_retry_40 (r : Req) (resp resp' : Resp) (h : replayReply r resp = .cached resp') :
+    resp' = resp ∧ resp.kind = r.kind ∧
+    (r.kind ≠ .open_ → r.kind ≠ .lock → resp.status = 0 → isNext resp.sid r.other r.argSeq = true) := by
+  unfold replayReply at h
+  split at h
+  · cases h
+  · rename_i hk
+    simp only [ne_eq, Decidable.not_not] at hk
+    cases hkk : r.kind <;> rw [hkk] at h <;> simp only [] at h
+    · cases h; exact ⟨rfl, hk.trans hkk, fun h1 => absurd rfl h1⟩
+    all_goals first
+      | (cases h; exact ⟨rfl, hk.trans hkk, fun _ h2 => absurd rfl h2⟩)
+      | (split at h
+         · rename_i hc
+           cases h
+           refine ⟨rfl, hk.trans hkk, fun _ _ hst => ?_⟩
+           simpa [hst] using hc
+         · cases h)
+
+/-- Every cached response `arrive` hands out comes from the replay arm and has
+the request's type. -/
+theorem arrive_cached_kind_40 (s : State) (c : Nat) (r : Req) (resp : Resp)
+    (h : (arrive s c r).2 = .reply (.cached resp)) : resp.kind = r.kind := by
+  cases hres : resolve s r with
+  | none => rw [arrive_eq_unresolved s c r hres] at h; cases h
+  | some o =>
+    cases hb : (s.oo o).busy with
+    | some b => rw [arrive_eq_wait s c r o hres (by simp [hb])] at h; cases h
+    | none =>
+      by_cases hrep : ∃ resp0, (s.oo o).lastResp = some resp0 ∧ r.seq = (s.oo o).lastSeq
+      · obtain ⟨resp0, h1, h2⟩ := hrep
+        rw [arrive_eq_replay s c r o resp0 hres hb h1 h2] at h
+        simp only [Out.reply.injEq] at h
+        obtain ⟨e, hk, _⟩ := false_retry_40 r resp0 resp h
+        rw [e]; exact hk
+      · have hn : NoReplay (s.oo o) r.seq := by
+          cases h1 : (s.oo o).lastResp with
+          | none => exact Or.inl h1
+          | some resp0 => exact Or.inr (fun h2 => hrep ⟨resp0, h1, h2⟩)
+        cases hc : (s.oo o).confirmed with
+        | true =>
+          by_cases hq : r.seq = nextSeq (s.oo o).lastSeq
+          · rw [arrive_eq_start_confirmed s c r o hres hb hn hc hq] at h; cases h
+          · rw [arrive_eq_badseq_confirmed s c r o hres hb hn hc hq] at h; cases h
+        | false =>
+          by_cases hk : r.kind = .open_
+          · rw [arrive_eq_unconfirmed_open s c r o hres hb hn hc hk] at h; cases h
+          · by_cases hk2 : r.kind = .openConfirm
+            · rw [arrive_eq_unconfirmed_confirm s c r o hres hb hn hc hk2] at h
+              split at h <;> cases h
+            · rw [arrive_eq_unconfirmed_deny s c r o hres hb hn hc hk2 hk] at h; cases h
+
+/-- **misordered_no_effect** (4.0): on a confirmed open-owner with no transaction
+in progress, a seqid that is neither the cached one nor its successor is
+answered NFS4ERR_BAD_SEQID and nothing changes; an unknown state ID is answered
+NFS4ERR_BAD_STATEID and nothing changes; on an unconfirmed owner everything
+but OPEN / OPEN_CONFIRM is refused. -/
+theorem misordered_no_effect_40 (s : State) (c : Nat) (r : Req) :
+    (resolve s r = none → arrive s c r = (s, .reply (.err errBadStateid))) ∧
+    (∀ o, resolve s r = some o → (s.oo o).busy = none → (s.oo o).confirmed = true →
+      r.seq ≠ (s.oo o).lastSeq → r.seq ≠ nextSeq (s.oo o).lastSeq →
+      arrive s c r = (s, .reply (.err errBadSeqid))) ∧
+    (∀ o, resolve s r = some o → (s.oo o).busy = none → (s.oo o).confirmed = false →
+      NoReplay (s.oo o) r.seq → r.kind ≠ .open_ → r.kind ≠ .openConfirm →
+      arrive s c r = (s, .reply (.err errBadSeqid))) := by
+  refine ⟨arrive_eq_unresolved s c r, fun o hres hb hc h1 h2 => ?_, fun o hres hb hc hn hk hk2 => ?_⟩
+  · exact arrive_eq_badseq_confirmed s c r o hres hb (Or.inr h1) hc h2
+  · exact arrive_eq_unconfirmed_deny s c r o hres hb hn hc hk2 hk
+
+/-- RFC 7530 16.18.5: OPEN on an unconfirmed open-owner with a seqid that is not
+a replay reinitialises the owner (forgets the response, drops its files) and
+starts a new transaction, whatever the seqid. -/
+theorem unconfirmed_open_reinitialises_40 (s : State) (c : Nat) (r : Req) (o : Nat)
+    (hres : resolve s r = some o) (hb : (s.oo o).busy = none) (hc : (s.oo o).confirmed = false)
+    (hn : NoReplay (s.oo o) r.seq) (hk : r.kind = .open_) :
+    arrive s c r = (begin (reinit s o) o c r, .started) :=
+  arrive_eq_unconfirmed_open s c r o hres hb hn hc hk
+
+/-- **inflight_duplicate_completes** (4.0, no lost wake-up): every call waiting
+for an owner's transaction waits for a transaction that IS in progress, and
+its completion wakes the call (it is handed back for retry and no longer
+waits). -/
+theorem inflight_duplicate_completes_40 {s : State} (h : Reachable s) (c o : Nat) (hw : (c, o) ∈ s.waiting) :
+    ∃ call r, (s.oo o).busy = some (call, r) ∧
+      ∀ x, c ∈ (finish s o x).2.2 ∧ (c, o) ∉ (finish s o x).1.waiting := by
+  have hinv := inv_reachable h
+  have hb := hinv.waiting c o hw
+  cases hbz : (s.oo o).busy with
+  | none => rw [hbz] at hb; simp at hb
+  | some b =>
+    obtain ⟨call, r⟩ := b
+    refine ⟨call, r, rfl, fun x => ?_⟩
+    obtain ⟨h1, h2, _⟩ := finish_waiting s o x call r hbz
+    rw [h1, h2]
+    constructor
+    · simp only [List.mem_map, List.mem_filter, beq_iff_eq]
+      exact ⟨(c, o), ⟨hw, rfl⟩, rfl⟩
+    · simp
+
+/-- … and when the woken duplicate of an OPEN retries, it is answered with the
+response the original just produced (if that response advances the seqid). -/
+theorem inflight_open_gets_original_reply_40 {s : State} (h : Reachable s) (o call c : Nat) (r : Req) (x : Fin)
+    (hb : (s.oo o).busy = some (call, r)) (hk : r.kind = .open_) (ho : r.owner = o)
+    (hadv : shouldComplete x.resp.status = true) (hwf : x.resp.kind = .open_) :
+    (arrive (finish s o x).1 c r).2 = .reply (.cached x.resp) := by
+  have hr : Reachable (finish s o x).1 := Reachable.step (.finish o x) h
+  have hres : resolve (finish s o x).1 r = some o := by simp [resolve, hk, ho]
+  have hdone : ((finish s o x).1.oo o).lastDone = some (r, x.resp) := by
+    rw [finish_oo_same s o x call r hb]; simp [hadv]
+  obtain ⟨h1, h2⟩ := same_reply_40 hr c r r x.resp o hres hdone rfl
+  rw [h1]
+  have : replayReply r x.resp = .cached x.resp := by
+    unfold replayReply; simp [hwf, hk]
+  rw [this]
+
+/-- **Two-phase CLOSE**: after a successful CLOSE the closed state ID still
+resolves to its open-owner (it is only removed when the owner's next
+transaction starts), so a retransmitted CLOSE reaches the replay cache instead
+of failing with BAD_STATEID. -/
+theorem close_replay_resolvable_40 {s : State} (h : Reachable s) (o call : Nat) (r : Req) (x : Fin) (c : Nat)
+    (hb : (s.oo o).busy = some (call, r)) (hk : r.kind = .close) (hres : s.openOther r.other = some o)
+    (hst : x.resp.status = 0) (hwf : WF40 r x.resp) :
+    resolve (finish s o x).1 r = some o ∧
+    (arrive (finish s o x).1 c r).2 = .reply (.cached x.resp) := by
+  have hadv : shouldComplete x.resp.status = true := by rw [hst]; decide
+  have hres' : resolve (finish s o x).1 r = some o := by
+    unfold resolve finish
+    rw [hb]
+    simp only [hk, reduceCtorEq, if_false]
+    cases hs : x.resp.sid with
+    | none => simpa using hres
+    | some p => obtain ⟨f', q⟩ := p; simp [hres]
+  have hr : Reachable (finish s o x).1 := Reachable.step (.finish o x) h
+  have hdone : ((finish s o x).1.oo o).lastDone = some (r, x.resp) := by
+    rw [finish_oo_same s o x call r hb]; simp [hadv]
+  obtain ⟨h1, h2⟩ := same_reply_40 hr c r r x.resp o hres' hdone rfl
+  exact ⟨hres', by rw [h1, h2 rfl rfl rfl hwf]⟩
+
+/-- Lock-owner replay (LOCK with an existing lock-owner, LOCKU): a request with
+the lock-owner's cached seqid never executes; it gets the cached response only
+if that has the request's type (and, if OK, the successor state ID), else
+BAD_SEQID; any other seqid but the successor is refused; nothing changes. -/
+theorem lock_replay_40 (s : State) (r : LReq) (x : Resp) (lk f : Nat) (resp : Resp)
+    (hl : s.lockOther r.other = some (lk, f)) (hr : (s.lo lk).lastResp = some resp) (hq : r.seq = (s.lo lk).lastSeq) :
+    (lockTx s r x).1 = s ∧ (lockTx s r x).2.2 = false ∧
+    ((lockTx s r x).2.1 = .cached resp ∨ (lockTx s r x).2.1 = .err errBadSeqid) ∧
+    ((lockTx s r x).2.1 = .cached resp → resp.kind = r.kind) := by
+  unfold lockTx
+  rw [hl]
+  simp only [hr, Option.isSome_some, hq, beq_self_eq_true, Bool.and_self, if_true]
+  refine ⟨trivial, trivial, ?_, ?_⟩
+  · split
+    · exact Or.inr rfl
+    · split
+      · exact Or.inl rfl
+      · exact Or.inr rfl
+  · split
+    · intro h; cases h
+    · rename_i hk; intro _; simpa using hk
+
+theorem lock_misordered_no_effect_40 (s : State) (r : LReq) (x : Resp) (lk f : Nat)
+    (hl : s.lockOther r.other = some (lk, f))
+    (h1 : (s.lo lk).lastResp = none ∨ r.seq ≠ (s.lo lk).lastSeq) (h2 : r.seq ≠ nextSeq (s.lo lk).lastSeq) :
+    lockTx s r x = (s, .err errBadSeqid, false) := by
+  unfold lockTx
+  rw [hl]
+  have : ((s.lo lk).lastResp.isSome && r.seq == (s.lo lk).lastSeq) = false := by
+    rcases h1 with h | h <;> simp [h]
+  simp [this, h2]
+
+/-! ### non-vacuity (4.0) -/
+
+/-- A run: OPEN seq 5 on a new owner (executes, response cached), its
+retransmission (cached), OPEN_CONFIRM seq 6, a CLOSE with the OPEN's seqid
+(BAD_SEQID), a misordered CLOSE (BAD_SEQID), CLOSE seq 7 and its retransmission. -/
+example :
+    let open0 : Req := ⟨.open_, 7, 0, 0, 5, 1⟩
+    let s1 := (arrive {} 0 open0).1
+    let s2 := (finish s1 7 ⟨⟨.open_, 0, some (3, 1), 0⟩, 0, 0⟩).1
+    let conf : Req := ⟨.openConfirm, 0, 3, 1, 6, 2⟩
+    let s3 := (finish (arrive s2 2 conf).1 7 ⟨⟨.openConfirm, 0, some (3, 2), 2⟩, 0, 0⟩).1
+    let close : Req := ⟨.close, 0, 3, 2, 7, 3⟩
+    let s4 := (finish (arrive s3 5 close).1 7 ⟨⟨.close, 0, some (3, 3), 5⟩, 0, 0⟩).1
+    (arrive {} 0 open0).2 = .started ∧
+    (arrive s2 1 open0).2 = .reply (.cached ⟨.open_, 0, some (3, 1), 0⟩) ∧
+    (arrive s3 3 { close with seq := 6 }).2 = .reply (.err errBadSeqid) ∧
+    (arrive s3 4 { close with seq := 9 }).2 = .reply (.err errBadSeqid) ∧
+    (arrive s4 6 close).2 = .reply (.cached ⟨.close, 0, some (3, 3), 5⟩) ∧
+    (arrive s4 7 { close with argSeq := 1 }).2 = .reply (.err errBadSeqid) := by
+  decide
+
+end V40
 end BbRe.Properties.C19
